@@ -31,6 +31,9 @@ import (
 //	atomic:  one goroutine AtomicCreates d/t with a record of that size, round
 //	         after round, while another opens d/t, reads it whole and closes;
 //
+// and in both a further goroutine lists d all the time (exactly t and w; the
+// writer creates d/z after its last round, which ends the listing);
+//
 // with NO harness synchronisation between the start barrier and the join (as
 // in the operation-class matrix: timestamps go to goroutine-private slices),
 // so that the race detector sees every pair of accesses the library does not
@@ -47,13 +50,15 @@ func init() {
 }
 
 type pmCell struct {
-	Kind      string   `json:"kind"` // append | atomic
-	Size      int      `json:"size"`
-	Rounds    int      `json:"rounds"`
-	Polls     int64    `json:"polls"`
-	NewData   int64    `json:"polls_that_returned_new_data"`
-	Overlaps  int64    `json:"call_pairs_with_intersecting_intervals"`
-	Anomalies []string `json:"anomalies,omitempty"` // "<kind-of-anomaly>: text"
+	Kind         string   `json:"kind"` // append | atomic
+	Size         int      `json:"size"`
+	Rounds       int      `json:"rounds"`
+	Polls        int64    `json:"polls"`
+	NewData      int64    `json:"polls_that_returned_new_data"`
+	Overlaps     int64    `json:"call_pairs_with_intersecting_intervals"`
+	Lists        int64    `json:"list_calls"`
+	ListOverlaps int64    `json:"list_calls_overlapping_writer_calls"`
+	Anomalies    []string `json:"anomalies,omitempty"` // "<kind-of-anomaly>: text"
 }
 
 func pmBody(k, n int) []byte { return []byte(stampedPayload(fmt.Sprintf("{%d}", k), n)) }
@@ -165,13 +170,14 @@ func pmRunCell(fs filesys.Filesys, impl, kind string, size int) (cell pmCell) {
 	base := time.Now()
 	var ready int32
 	var wg sync.WaitGroup
-	ivs := make([][]int64, 1+nReaders)
-	notes := make([][]string, 1+nReaders)
-	polls := make([]int64, 1+nReaders)
-	news := make([]int64, 1+nReaders)
+	lister := 1 + nReaders // index of the goroutine that lists d all the time
+	ivs := make([][]int64, 2+nReaders)
+	notes := make([][]string, 2+nReaders)
+	polls := make([]int64, 2+nReaders)
+	news := make([]int64, 2+nReaders)
 	barrier := func() {
 		atomic.AddInt32(&ready, 1)
-		for atomic.LoadInt32(&ready) < int32(1+nReaders) {
+		for atomic.LoadInt32(&ready) < int32(2+nReaders) {
 			runtime.Gosched()
 		}
 	}
@@ -209,6 +215,12 @@ func pmRunCell(fs filesys.Filesys, impl, kind string, size int) (cell pmCell) {
 		if kind == "append" {
 			call(func() { fs.Append(wfd, []byte("<E>")) })
 		}
+		// tells the lister, through the filesystem under test only, that the rounds are over
+		call(func() {
+			if f, ok := fs.Create("d", "z"); ok {
+				fs.Close(f)
+			}
+		})
 	}()
 	// readers
 	for r := 1; r <= nReaders; r++ {
@@ -290,7 +302,43 @@ func pmRunCell(fs filesys.Filesys, impl, kind string, size int) (cell pmCell) {
 			}
 		}(r)
 	}
+	// lister: d holds exactly t and w from the setup on (staging files are not
+	// part of any listed state), whatever is being written
+	wg.Add(1)
+	go func() {
+		defer wg.Done()
+		barrier()
+		iv := make([]int64, 0, 1<<12)
+		defer func() { ivs[lister] = iv }()
+		for n := 0; n < 2_000_000; n++ {
+			var names []string
+			t0 := int64(time.Since(base))
+			msg, pn := guarded(func() { names = fs.List("d") })
+			if len(iv) < 1<<20 {
+				iv = append(iv, t0, int64(time.Since(base)))
+			}
+			polls[lister]++
+			if pn {
+				notes[lister] = append(notes[lister], "panic: a valid List(d) panicked: "+msg)
+				return
+			}
+			sort.Strings(names)
+			if len(names) == 3 && names[0] == "t" && names[1] == "w" && names[2] == "z" {
+				return // the writer is done
+			}
+			if len(names) != 2 || names[0] != "t" || names[1] != "w" {
+				notes[lister] = append(notes[lister], fmt.Sprintf("list-wrong-names: List(d) = %q while d holds exactly t and w (and at the very end z)", names))
+				return
+			}
+			if n&63 == 63 && time.Since(base) > 30*time.Second {
+				return
+			}
+			runtime.Gosched()
+		}
+	}()
 	wg.Wait()
+	cell.Lists = polls[lister]
+	cell.ListOverlaps = mxOverlaps(ivs[0], ivs[lister])
 	for r := 1; r <= nReaders; r++ {
 		cell.Polls += polls[r]
 		cell.NewData += news[r]
@@ -413,7 +461,7 @@ func c14PayloadMatrix(r *core.Run, self, raceBin, raceDir string, childLog *[]st
 	}
 	found := map[string]*agg{} // sig -> failing sizes
 	cellsRun, cellsOverlapped := 0, 0
-	var polls, news int64
+	var polls, news, lists, listOverlaps int64
 	overlapBy := map[string]int64{}
 	core.Parallel(len(batches), 2, func(bi int) {
 		b := batches[bi]
@@ -449,10 +497,12 @@ func c14PayloadMatrix(r *core.Run, self, raceBin, raceDir string, childLog *[]st
 				if json.Unmarshal(line, &c) != nil || c.Kind == "" {
 					continue
 				}
-				r.Eval(int(c.NewData) + 3*c.Rounds)
+				r.Eval(int(c.NewData) + 3*c.Rounds + int(c.Lists))
 				mu.Lock()
 				cellsRun++
 				polls += c.Polls
+				lists += c.Lists
+				listOverlaps += c.ListOverlaps
 				news += c.NewData
 				if c.Overlaps > 0 {
 					cellsOverlapped++
@@ -507,6 +557,8 @@ func c14PayloadMatrix(r *core.Run, self, raceBin, raceDir string, childLog *[]st
 	r.Set("payload_matrix_cells_run", cellsRun)
 	r.Set("payload_matrix_cells_with_overlapping_writer_and_reader_calls", cellsOverlapped)
 	r.Set("payload_matrix_reader_polls", polls)
+	r.Set("payload_matrix_list_calls", lists)
+	r.Set("payload_matrix_list_calls_overlapping_writer_calls", listOverlaps)
 	r.Set("payload_matrix_polls_that_returned_new_data", news)
 	r.Set("payload_matrix_overlapping_call_pairs_by_cell", overlapBy)
 }
